@@ -707,9 +707,12 @@ impl Eval {
                             deps.insert(Dep::Dir(x.clone()));
                         }
                         let src = if other { v.other_src } else { v.src };
-                        let ok = self.access(v, other, &format!("D:{x}")).is_ok() && src_is_dir(src, v.dirs, x);
+                        // explicit (empty) directories exist in the main source only
+                        let no_dirs = BTreeSet::new();
+                        let dirs = if other { &no_dirs } else { v.dirs };
+                        let ok = self.access(v, other, &format!("D:{x}")).is_ok() && src_is_dir(src, dirs, x);
                         if ok {
-                            write!(out, " Q:{x}={}", src_list(src, v.dirs, x).len()).unwrap();
+                            write!(out, " Q:{x}={}", src_list(src, dirs, x).len()).unwrap();
                         } else {
                             write!(out, " Q:{x}=!").unwrap();
                         }
@@ -734,6 +737,10 @@ impl Eval {
                     let mut s = String::new();
                     // another thread: nothing is recorded for the loading asset; always the main cache
                     let r = self.steps(v, b, false, false, deps, &mut s);
+                    if let Err(EvErr::Panic) = r {
+                        // the helper thread panicked: the join re-raises it, nothing is appended
+                        return Err(EvErr::Panic);
+                    }
                     write!(out, " thread{{{s} }}").unwrap();
                     r?;
                 }
